@@ -5,7 +5,9 @@ tie: Gen_Channel.v regenerated from the source (search depth, return char, the p
 driver of every kind, the ANSI patterns, structural facts of the channel code) with obligations compiled over
 it + correspondence of the model against the REAL drivers (Generic, Network, the five core platforms; sync and
 asyncio) over a causal framing device, for histories of 2-6 operations under generated chunkings.
-oracle: decided on the device's own log of what each line printed, independent of the model."""
+oracle: decided on the device's own log of what each line printed, independent of the model.  Focused in-domain
+streams (focus_scenarios): prompt-like line suffixes at the search-depth point, dialogues that repeat an expected
+response (with / without interaction_complete_patterns), two-line prompts."""
 import json
 import os
 import re
@@ -83,10 +85,23 @@ def response_search(kind, resp):
     return lambda b: rb in b
 
 
-def quiet(found, depth, text, upto):
-    """no proper prefix of text[:upto] (none shorter than `upto`) is read as the awaited prompt"""
+_QUIET = {}
+
+
+def quiet(found, depth, text, upto, key=None):
+    """no proper prefix of text[:upto] (none shorter than `upto`) is read as the awaited prompt.  `key` names `found` (a pure
+    function of the window) so that its verdicts are remembered: families of scenarios share most of their windows"""
+    if key is None:
+        return not any(found(window(depth, text[:i])) for i in range(1, upto))
+    memo = _QUIET.setdefault(key, {})
+    if len(memo) > 200000:
+        memo.clear()
     for i in range(1, upto):
-        if found(window(depth, text[:i])):
+        w = window(depth, text[:i])
+        v = memo.get(w)
+        if v is None:
+            v = memo[w] = bool(found(w))
+        if v:
             return False
     return True
 
@@ -109,12 +124,20 @@ def in_domain(scn, exact=False):
     commands without control characters; printed text without CR/ESC; no proper prefix of what the device prints
     between the return and the end of the awaited prompt is read as that prompt through the search window;
     the prompt stripped from the cleaned text is the final one only.  exact=False trusts the generator's safe
-    alphabet for the two searches (they are vacuous there)."""
+    alphabet for the two searches (they are vacuous there).
+    "No complete or partial line can be read as a prompt" is read as Coq's `quiet` states it: no PREFIX of the stream (a
+    complete line or a line prefix as received, seen through the search window) - a line SUFFIX is no candidate, the window
+    drops its first partial line.  The prompt may have two lines (Junos banner line) if the driver's pattern reads it as one
+    prompt.  send_interactive: see the comment in the branch below (completion patterns are inside the domain)."""
     kind, depth = scn["kind"], scn.get("depth") or 1000
     prompt = s2b(scn["prompt"])
     core, trail = split_prompt(prompt)
     pat = pattern_of(kind)
-    if not core or core[:1] in WS or b"\n" in prompt or b"\r" in prompt or len(prompt) + 1 > depth:
+    if not core or core[:1] in WS or b"\n" in trail or b"\r" in prompt or len(prompt) + 1 > depth:
+        return False
+    # a prompt of several lines (the Junos routing-engine banner line "{master:0}" in front of "user@host>"): every line
+    # starts and ends in a non-blank; whether the driver's pattern reads it as ONE prompt is decided by the searches below
+    if b"\n" in core and any(not l or l[:1] in WS or l[-1:] in WS for l in core.split(b"\n")):
         return False
     for w in [trail[i:] for i in range(len(trail) + 1)]:
         for t in [trail[:i] for i in range(len(trail) + 1)]:
@@ -150,22 +173,30 @@ def in_domain(scn, exact=False):
                 k += 1
                 if exact:
                     text = b"\n" + clean_body(out) + core
-                    if not quiet(lambda b: bool(pat.search(b)), depth, text, len(text)):
+                    if not quiet(lambda b: bool(pat.search(b)), depth, text, len(text), key=("class", kind)):
                         return False
                     cleaned = b"\n" + clean_body(b"\n".join(l.rstrip(WS) for l in out.split(b"\n"))) if out else b"\n"
                     if op["strip"] and pat.sub(b"", cleaned + core) != cleaned:
                         return False
         else:
+            # send_interactive.  The device's script decides how many questions are asked (m stages); the caller lists
+            # len(evs) events.  Without completion patterns the two agree (m + 1 events).  With completion patterns the
+            # device may be back at its prompt early (m + 1 < len(evs)): the interaction is over there and the remaining
+            # events must not be typed.  Every read of an event is armed with the event's expected response and the
+            # completion patterns: none of them may be found before the end of what the device prints for that event.
             evs = op["events"]
-            if op.get("complete") or not evs or k >= len(scn["replies"]):
+            comp = list(op.get("complete") or [])
+            if not evs or k >= len(scn["replies"]) or any(not p for p in comp):
                 return False
             r = scn["replies"][k]
             k += 1
             stages = [(s2b(t), s2b(q), bool(e)) for t, q, e in r["stages"]] if "stages" in r else []
             final = s2b(r["final"] if "stages" in r else r["out"])
-            if len(stages) + 1 != len(evs):
+            m = len(stages)
+            if (m + 1 > len(evs)) if comp else (m + 1 != len(evs)):
                 return False
-            for j, ev in enumerate(evs):
+            cfound = [response_search(kind, p) for p in comp]
+            for j, ev in enumerate(evs[:m + 1]):
                 ib = ev[0].encode()
                 if any(x in ib for x in b"\x08\n\r\x1b") or not ev[1]:
                     return False
@@ -174,17 +205,28 @@ def in_domain(scn, exact=False):
                 if j > 0 and (ev[2] is True) == stages[j - 1][2]:
                     return False      # hidden <-> not echoed
                 found = response_search(kind, ev[1])
-                if j < len(stages):
+
+                def armed(b, found=found):
+                    return found(b) or any(f(b) for f in cfound)
+
+                if j < m:
                     t, q, _ = stages[j]
                     qc = q.rstrip(BLANK)
                     text, tail = b"\n" + clean_body(t) + qc, q[len(qc):]
                 else:
                     text, tail = b"\n" + clean_body(final) + core, trail
-                if found(b" ") or found(b""):
+                if armed(b" ") or armed(b""):
                     return False
-                if not quiet(found, depth, text, len(text)):
+                if not quiet(armed, depth, text, len(text)):
                     return False
-                if not all(found(window(depth, text + tail[:i])) for i in range(len(tail) + 1)):
+                ends = [window(depth, text + tail[:i]) for i in range(len(tail) + 1)]
+                if j < m:
+                    ok = all(found(e) for e in ends)                  # the question is recognised: the dialogue goes on
+                elif j == len(evs) - 1:
+                    ok = all(armed(e) for e in ends)                  # last event: the read ends at the prompt
+                else:                                                 # back at the prompt early: complete, not "expected"
+                    ok = all(any(f(e) for f in cfound) for e in ends) and not any(found(e) for e in ends)
+                if not ok:
                     return False
     return True
 
@@ -275,9 +317,22 @@ def oracle(scn, res):
         r = replies[k] if k < len(replies) else {"out": ""}
         k += 1
         echoes = [True] + [bool(e) for _, _, e in r.get("stages", [])]
-        if len(o["log"]) != len(evs) or [x[0] for x in o["log"]] != [e[0].encode() for e in evs]:
-            bad.append(("device-log", "%s: the device received the lines %r, sent were %r" % (name, [x[0] for x in o["log"]], [e[0] for e in evs])))
+        # the device's script says how many questions it asks: that many answers (+ the first line) are to be typed, the
+        # rest of the caller's events (interaction_complete_patterns) must never reach the device
+        due = evs[:len(echoes)]
+        if [x[0] for x in o["log"]] != [e[0].encode() for e in due]:
+            bad.append(("device-log", "%s: the device received the lines %r, due were %r (it asked %d question%s)" % (
+                name, [x[0] for x in o["log"]], [e[0] for e in due], len(echoes) - 1, "" if len(echoes) == 2 else "s")))
             continue
+        # in step at every event: when an answer is typed, everything the device printed before it (its question) has been read
+        wr = o.get("writes") or []
+        if len(wr) == 2 * len(due):
+            for jj in range(1, len(due)):
+                data, unread, _ = wr[2 * jj]
+                if data == due[jj][0].encode() and not all(c in BLANK for c in unread):
+                    bad.append(("event-out-of-step", "%s: the answer of event %d was typed while %d bytes the device printed before it were unread (%r...)" % (
+                        name, jj, len(unread), unread[:60])))
+                    break
         transcript = b""
         for (rawl, text), ec in zip(o["log"], echoes):
             transcript += (rawl if ec else b"") + b"\n" + text
@@ -813,6 +868,204 @@ def window_cut_scenario(rng, kind, prompt):
             "replies": [{"out": out}]}
 
 
+# ------------------------------------------------------------------------------------------------
+# focused streams: scenario kinds inside the property's domain that a uniform generator does not reach
+# ------------------------------------------------------------------------------------------------
+FOCUS_PROMPTS = {"generic": ["router1#", "lab-sw1# ", "host-7>"], "network": ["router1#"], "cisco_iosxe": ["lab-sw1#", "router1#"],
+                 "cisco_iosxr": ["RP/0/RP0/CPU0:xr1#"], "cisco_nxos": ["switch1# ", "n9k-1#"], "arista_eos": ["switch1#", "leaf1#"],
+                 "juniper_junos": ["admin@vmx1> ", "admin@vmx1>"]}
+TAIL_ENDS = {"generic": "#>$~@:]"}
+LOWER = "abcdefghijklmnopqrstuvwxyz"
+
+
+def gen_tail_line(rng, kind):
+    """a line that is no prompt as a whole (several words, a comma) whose LAST WORD alone reads as a prompt of the driver's
+    pattern ("... queueing strategy:", "... peer router1#", "  Output queue, drops>  ")"""
+    end = rng.choice(TAIL_ENDS.get(kind, "#>"))
+    word = lambda a, b: "".join(rng.choice(LOWER + "0123456789") for _ in range(rng.randint(a, b)))  # noqa
+    tail = rng.choice(LOWER) + word(2, 11) + (rng.choice(["-", "."]) + word(1, 4) if rng.random() < 0.3 else "")
+    head = rng.choice(["", "  ", "    "]) + word(2, 9).capitalize() + ", " + " ".join(word(1, 8) for _ in range(rng.randint(0, 3)))
+    return (head.rstrip(" ") + " " + tail + end + rng.choice(["", "", " ", "  "])).encode()
+
+
+def suffix_cut_family(rng, kind, prompt, depth, stack):
+    """outputs longer than the search depth all of whose lines END in a prompt-like word, in a family of lengths (a last
+    line of k filler bytes, k = 0 .. a line's length) such that the point `depth` bytes before the end of the received text
+    visits every offset of a line: no line and no line prefix is a prompt (inside the domain, checked exactly), only line
+    SUFFIXES are - which no search may ever see because a search window drops its first partial line."""
+    lines, total = [], 0
+    while total < depth + 70:
+        l = gen_tail_line(rng, kind)
+        lines.append(l)
+        total += len(l) + 1
+    if rng.random() < 0.3:
+        lines.insert(rng.randint(0, len(lines)), b"")
+    span = max(len(l) for l in lines[:3] + lines[-3:]) + 2
+    fam = []
+    for k in range(span):
+        body = b"\n".join(lines + ([b"=" * k] if k else []))
+        fam.append(with_nrep({"kind": kind, "stack": stack, "prompt": prompt, "nl": rng.choice(["\r\n", "\r\n", "\n"]),
+                              "ret": rng.choice(["\n", "\n", "\r\n"]), "depth": depth, "focus": "suffix-cut",
+                              "policy": rng.choice([["whole"], ["bytes", 1000], ["bytes", 999], ["takes", [997, 3, 500]], ["bytes", 1001]]),
+                              "replies": [{"out": b2s(body)}, {"out": "Thu Oct 1 2026 12.00 UTC"}],
+                              "ops": [{"op": "cmd", "cmd": "show interface", "strip": rng.random() < 0.85},
+                                      {"op": "cmd", "cmd": "show clock", "strip": True}]}))
+    return fam
+
+
+QUESTIONS = [("Proceed? [y/n] ", "[y/n]"), ("Destination filename [startup-config]? ", "[startup-config]?"), ("Password: ", "Password:"),
+             ("Confirm [confirm]", "[confirm]"), ("Enter value = ", "value ="), ("Source filename []? ", "Source filename []?"),
+             ("Old Password: ", "Old Password:")]
+FINE_POLICIES = [["bytes", 1], ["bytes", 1], ["bytes", 2], ["bytes", 3], ["bytes", 7], ["lines"], ["lines"], ["takes", [1, 2, 5, 1, 9]],
+                 ["takes", [64, 1]], ["bytes", 64], ["blank"], ["whole"]]
+
+
+def noise_text(rng, literals, n):
+    """a few lines of text in which the given literals occur as ordinary text (a line of their own, or inside a line)"""
+    out = []
+    for _ in range(n):
+        k = rng.random()
+        lit = rng.choice(literals) if literals else ""
+        if lit and k < 0.45:
+            out.append(lit + rng.choice(["", " ", ""]))
+        elif lit and k < 0.75:
+            out.append(" %s %s %s" % (b2s(gen_line(rng, rng.randint(1, 8), SAFE)), lit, rng.choice(["ok", "accepted", "(again)", ""])))
+        else:
+            out.append(b2s(gen_line(rng, rng.randint(1, 40), SAFE)))
+    return "\n".join(out)
+
+
+def gen_repeat_dialogue(rng, core, complete=False):
+    """a dialogue of 2-5 events in which the TEXT of an expected response occurs again, as ordinary output, while another event
+    is waited for (the send_interactive docstring: 'Password:' is asked, and printed again while the copy runs; the same
+    question asked twice).  With complete=True the caller lists more events than the device asks questions and names the prompt
+    as interaction_complete_patterns (a device that asks for the password once where another release asks twice)."""
+    n = rng.choice([2, 3, 3, 4, 5])
+    qs = [rng.choice(QUESTIONS) for _ in range(n - 1)]
+    for j in range(1, n - 1):
+        if rng.random() < (0.6 if complete else 0.35):
+            qs[j] = qs[j - 1]                       # the same question twice in a row
+    cmd = " ".join(rng.choice(WORDS) for _ in range(rng.randint(1, 3)))
+    asked = n - 1
+    if complete:
+        asked = rng.choice([a for a in range(n - 1) if a == 0 or qs[a] == qs[a - 1]] or [rng.randint(0, n - 2)]) if rng.random() < 0.7 \
+            else rng.randint(0, n - 1)
+    events, stages, inp, hidden_prev = [], [], cmd, False
+    for j in range(n - 1):
+        q, lit = qs[j]
+        echo = not lit.endswith("Password:") and rng.random() < 0.8
+        others = [l for _, l in qs if l != lit and lit not in l]
+        text = noise_text(rng, others[:j + 1] if rng.random() < 0.8 else others, rng.randint(0, 3)) if rng.random() < 0.6 else ""
+        events.append([inp, lit, True if hidden_prev else rng.choice([False, None])])
+        stages.append([text, q if rng.random() < 0.8 else q.rstrip(" "), echo])
+        hidden_prev = not echo
+        inp = rng.choice(["y", "yes", "secret1", "flash:", "42", ""]) if echo else "s3cr3t"
+    events.append([inp, core, True if hidden_prev else rng.choice([False, None])])
+    stages = stages[:asked]
+    # what the device prints once the dialogue is over: the earlier expected responses again, then more text
+    lits = [l for _, l in qs[:max(asked, 1)]] or ["Password:"]
+    if asked < n - 1:
+        lits = [l for l in lits if qs[asked][1] not in l] if rng.random() < 0.85 else lits
+    k = rng.random()
+    final = noise_text(rng, lits, rng.randint(1, 4)) + "\n" + noise_text(rng, [], rng.randint(1, 3)) if k < 0.8 else \
+        (b2s(gen_output(rng, rng.choice([1100, 1500]))) if k < 0.9 else "")
+    comp = None
+    if complete:
+        comp = [rng.choice([core, "^" + re.escape(core) + r"\s?$"])]
+    return events, {"stages": stages, "final": final}, comp
+
+
+def repeat_dialogue_scenario(rng, kind, stack, complete=False):
+    prompt = rng.choice(FOCUS_PROMPTS[kind])
+    evs, rep, comp = gen_repeat_dialogue(rng, prompt.rstrip(" "), complete)
+    ops = [{"op": "inter", "events": evs, "complete": comp}, {"op": "cmd", "cmd": "show clock", "strip": rng.random() < 0.7}]
+    replies = [rep, {"out": "Thu Oct 1 2026 12.00 UTC"}]
+    if rng.random() < 0.3:
+        ops.insert(0, {"op": "cmd", "cmd": "show users", "strip": True})
+        replies.insert(0, {"out": b2s(gen_output(rng, rng.randint(0, 40)))})
+    if rng.random() < 0.3:
+        ops.append({"op": "prompt"})
+    return with_nrep({"kind": kind, "stack": stack, "prompt": prompt, "nl": rng.choice(["\r\n", "\r\n", "\n"]), "ret": rng.choice(["\n", "\n", "\r\n"]),
+                      "depth": rng.choice([1000, 1000, 1000, 200]), "policy": rng.choice(FINE_POLICIES),
+                      "focus": "complete-dialogue" if complete else "repeat-dialogue", "replies": replies, "ops": ops})
+
+
+def docstring_dialogue(stack, policy, ret, asks_twice=True, complete=False):
+    """the example of the send_inputs_interact docstring ('copy flash: scp:'): 'Password:' is asked for and is printed
+    again while the copy runs; with complete=True the caller lists the password twice (some releases ask twice) and gives
+    the prompt as interaction_complete_patterns"""
+    prompt = "lab-sw1#"
+    copied = " Sink: C0644 639 test1.txt\n!\n639 bytes copied in 12.066 secs (53 bytes/sec)"
+    stages = [["", "Source filename []? ", True], ["", "Address or name of remote host []? ", True], ["", "Destination username [carl]? ", True],
+              ["Writing test1.txt", "Password: ", False]]
+    evs = [["copy flash: scp:", "Source filename []?", False], ["test1.txt", "Address or name of remote host []?", False],
+           ["172.31.254.100", "Destination username [carl]?", False], ["carl", "Password:", False]]
+    if complete:
+        evs += [["hunter2", "Password:", True], ["hunter2", prompt, True]]
+        if asks_twice:
+            stages.append(["", "Password: ", False])
+        final = copied
+    else:
+        evs.append(["hunter2", prompt, True])
+        final = "\nPassword:\n" + copied
+    return with_nrep({"kind": "generic", "stack": stack, "prompt": prompt, "nl": "\r\n", "ret": ret, "depth": 1000, "policy": policy,
+                      "focus": "complete-dialogue" if complete else "repeat-dialogue",
+                      "replies": [{"stages": stages, "final": final}, {"out": "Thu Oct 1 2026 12.00 UTC"}],
+                      "ops": [{"op": "inter", "events": evs, "complete": ["^lab-sw1#$"] if complete else None},
+                              {"op": "cmd", "cmd": "show clock", "strip": True}]})
+
+
+BANNERS = ["{master:0}", "{backup:1}", "{master}", "{primary:node0}", "{linecard:2}"]
+
+
+def multiline_prompt_scenario(rng, stack):
+    """a prompt of the driver's own pattern that spans two lines: the Junos routing-engine banner line in front of user@host>"""
+    prompt = rng.choice(BANNERS) + "\n" + "%s@%s>" % (rng.choice(["admin", "user", "ops-1"]), gen_host(rng)) + rng.choice(["", " "])
+    scn = gen_scenario(rng, kind="juniper_junos", stack=stack, big_ok=False, nops=rng.choice([2, 3, 4]))
+    scn["prompt"] = prompt
+    scn["depth"] = rng.choice([1000, 1000, 200, 64])
+    for op in scn["ops"]:
+        if op["op"] == "inter":                    # the last event waits for the prompt, as a literal
+            op["events"][-1][1] = prompt.rstrip(" ") if rng.random() < 0.5 else prompt.rstrip(" ").split("\n")[1]
+        if op["op"] in ("cmd", "cmds"):
+            op["strip"] = rng.random() < 0.8
+    scn["policy"] = rng.choice(FINE_POLICIES + [["tail", 3], ["tail", len(prompt) + 1], ["bytes", 12]])
+    scn["focus"] = "multiline-prompt"
+    return scn
+
+
+def focus_scenarios(rng, thorough):
+    """(scenario, to the model too?) - every scenario runs on the real driver under the oracle; a sample whose estimated
+    evaluation cost is small is also evaluated by the model (the members of a family differ in a few bytes only)"""
+    out = []
+    stacks = ["sync", "async"]
+
+    def cheap(scn, budget=15000.0):
+        return policy_cost(scn["policy"], stage_texts(scn), scn["depth"], scn["kind"]) <= budget
+
+    for i, kind in enumerate(KINDS):
+        for rnd in range(3 if thorough else 1):
+            prompts = FOCUS_PROMPTS[kind]
+            fam = suffix_cut_family(rng, kind, prompts[(i + rnd) % len(prompts)], 1000 if rnd != 1 else rng.choice([200, 64, 1000]), stacks[(i + rnd) % 2])
+            pick = rng.randrange(len(fam))
+            out += [(scn, j == pick) for j, scn in enumerate(fam)]
+    pols = [["bytes", 1], ["bytes", 7], ["bytes", 64], ["lines"], ["whole"]]
+    for j, pol in enumerate(pols):
+        out.append((docstring_dialogue(stacks[j % 2], pol, "\n" if j % 3 else "\r\n"), j in (1, 3)))
+        for twice in (True, False):
+            out.append((docstring_dialogue(stacks[(j + 1) % 2], pol, "\n", asks_twice=twice, complete=True), j == 1))
+    for n in range(240 if thorough else 60):
+        scn = repeat_dialogue_scenario(rng, rng.choice(KINDS), stacks[n % 2], complete=False)
+        out.append((scn, n % 4 == 0 and cheap(scn)))
+    for n in range(240 if thorough else 60):
+        scn = repeat_dialogue_scenario(rng, rng.choice(KINDS), stacks[n % 2], complete=True)
+        out.append((scn, n % 4 == 0 and cheap(scn)))
+    for n in range(120 if thorough else 30):
+        scn = multiline_prompt_scenario(rng, stacks[n % 2])
+        out.append((scn, n % 4 == 0 and cheap(scn)))
+    return out
+
+
 F_PROMPT_BLANK = {"kind": "cisco_nxos", "stack": "sync", "prompt": "switch1# ", "nl": "\r\n", "ret": "\n", "depth": 1000,
                   "policy": ["blank"], "replies": [{"out": "one"}, {"stages": [["", "Proceed [y/n] ", True]], "final": "done"}, {"out": "two"}],
                   "ops": [{"op": "cmd", "cmd": "show one", "strip": True},
@@ -974,10 +1227,13 @@ def run(rep):
         streams.append(("gen", gen_scenario(rng)))
     for i in range(400 if thorough else 90):
         streams.append(("edge", gen_edge(rng)))
+    # focused kinds (inside the domain, exact check): every one on the real driver under the oracle, a sample through the model too
+    for scn, to_model in focus_scenarios(rng, thorough):
+        streams.append(("focus" if to_model else "focus-oracle", scn))
     dist = {"by_stream": {}, "by_kind": {}, "by_stack": {}, "by_op": {}, "policy": {}, "nops": {}, "ret": {}, "nl": {}, "depth": {},
             "out_size": {"0": 0, "1-99": 0, "100-899": 0, "900-1100": 0, "1101-2999": 0, "3000+": 0},
             "cmd_trailing_ws": 0, "cmd_unicode": 0, "cmd_upper": 0, "cmd_blank": 0, "prompt_trailing_blank": 0,
-            "residue_nonempty_after_op": 0, "starved": 0, "edge_kinds": {}, "edge_in_domain": 0, "dialogue_events": 0,
+            "residue_nonempty_after_op": 0, "starved": 0, "edge_kinds": {}, "edge_in_domain": 0, "dialogue_events": 0, "focus": {},
             "total_output_bytes": 0, "reads": 0}
     terms, meta, fails = [], [], []
     for stream, scn in streams:
@@ -992,7 +1248,12 @@ def run(rep):
             if stream != "edge":
                 rep.broken.append("harness: open() failed (%s) for %s %r" % (res["open_exc"], scn["kind"], scn["prompt"]))
             continue
-        dom = in_domain(scn, exact=(stream == "edge"))
+        dom = in_domain(scn, exact=(stream not in ("gen", "corpus")))
+        if stream.startswith("focus"):
+            fk = dist["focus"].setdefault(scn.get("focus"), {"scenarios": 0, "in_domain": 0, "through_model": 0})
+            fk["scenarios"] += 1
+            fk["in_domain"] += bool(dom)
+            fk["through_model"] += stream == "focus"
         if stream in ("gen", "corpus") and not dom:
             # a random text can by chance contain an awaited literal: model-vs-implementation only; more than a few => generator defect
             dist["gen_outside_domain"] = dist.get("gen_outside_domain", 0) + 1
@@ -1003,8 +1264,9 @@ def run(rep):
         bad = oracle(scn, res) if dom else []
         for sig, text in bad:
             fails.append((scn, sig, text))
-        terms.append(case_term(scn, res))
-        meta.append((stream, scn, bool(bad), dom))
+        if stream != "focus-oracle":
+            terms.append(case_term(scn, res))
+            meta.append((stream, scn, bool(bad), dom))
         # distribution
         def inc(d, k):
             d[str(k)] = d.get(str(k), 0) + 1
@@ -1046,6 +1308,9 @@ def run(rep):
                         "output_sizes": [len(t) for t in stage_texts(scn)],
                         "results": [[c[2][:60].decode("latin-1") for c in o["chan"]] or o.get("prompt") for o in res["ops"]][:4],
                         "residue_after_each_op": [o["residue"].decode("latin-1") for o in res["ops"]]})
+    for fkind, fk in sorted(dist["focus"].items()):
+        if fk["in_domain"] * 10 < fk["scenarios"] * 6:
+            rep.broken.append("harness: focused stream %s: only %d of %d scenarios inside the domain" % (fkind, fk["in_domain"], fk["scenarios"]))
     # 5. known findings: replayed on the real code; reported while they still fail that way
     for sig, fscn in FINDING_SCENARIOS.items():
         try:
@@ -1075,6 +1340,14 @@ def run(rep):
                 "blank; strip_prompt on/off; return char \\n and \\r\\n; device line ends \\r\\n and \\n; search depth 1000, 200, 64, prompt+1; chunk policies whole, "
                 "n bytes (1..1001), cyclic take lists, cut-before-trailing-blank, line-wise; an edge stream (prompt-like text, eager, completion patterns, regex / "
                 "early expected responses, escape sequences, backspace, prefix-prompts) is model-vs-implementation only unless the exact domain check passes; "
+                "focused streams inside the domain (exact check; all under the oracle, a cheap sample through the model): suffix-cut = outputs longer than the "
+                "search depth whose every line ENDS in a word that alone reads as a prompt, in families of lengths that move the point `depth` bytes "
+                "before the end through every offset of a line, each followed by a second command; repeat-dialogue = 2-5 event dialogues in which the text "
+                "of an expected response re-appears as ordinary output while another event is awaited (same question twice, the docstring example of "
+                "send_inputs_interact), 1/2/3/7/64-byte, line-wise and whole reads, followed by a command; complete-dialogue = the same with "
+                "interaction_complete_patterns (literal or ^..$) and a device that asks fewer questions than the caller lists events; multiline-prompt = "
+                "two-line Junos prompts ({master:0} banner line); observer: what was unread at every transport write (each answer is typed only after its "
+                "question was read); "
                 "non-trivial = in-domain operation of a history with >= 2 operations; distinct = (driver, stack, operation, chunk policy)")
     # 7. verdicts
     seen = set()
@@ -1147,6 +1420,8 @@ def replay(path):
             print("     raw_result=%r" % (raw if len(raw) < 300 else raw[:140] + b" ... " + raw[-140:]))
             print("     result    =%r" % (proc if len(proc) < 300 else proc[:140] + b" ... " + proc[-140:]))
         print("     device log: %r" % [(a, b[:60]) for a, b in o["log"]])
+        if op["op"] == "inter":
+            print("     unread at each write: %r" % [(d, u[-40:]) for d, u, _ in o.get("writes", [])])
     rc = 0
     dom = in_domain(scn, exact=True)
     print("inside the property's domain: %s" % dom)
@@ -1182,18 +1457,28 @@ MANIFEST = {
             "tree on every run. The strict reading (nothing at all unread, raw_result exact) is refuted by two vm_compute witnesses (C01_full_refuted_*; replayed "
             "on the real drivers: known findings C01-prompt-blank-residue, C01-echo-trailing-blank) and proved where it holds (C01_history_exact_partial: prompt "
             "without trailing blank, commands without trailing white space). Tie: Gen_Channel.v (depth, return char, the prompt pattern of a constructed driver of every kind, "
-            "ANSI patterns, the shape of the escape-sequence carry-over, and the behaviour of the REAL _process_read_buf / _process_output / _get_prompt_pattern on 120 probe "
-            "inputs, compiled as obligations C01_generated_* against the model's prb / process_output) regenerated and recompiled on every run; "
+            "ANSI patterns, the shape of the escape-sequence carry-over, and the behaviour of the REAL _process_read_buf / _process_output / _get_prompt_pattern on ~125 probe "
+            "inputs (one output longer than the search depth whose search-depth point lies inside a prompt-like word), compiled as obligations C01_generated_* against the model's prb / process_output) regenerated and recompiled on every run; "
             "the model is executed by vm_compute on the same histories as the real drivers (sync and asyncio, 7 kinds) over a causal framing device and must agree "
             "on every raw/processed result, get_prompt value, bytes written, device log, unread residue; an independent oracle decides the property on the "
-            "device's own log; both regex engines are confronted with CPython's re on every pattern of the tree.",
+            "device's own log; both regex engines are confronted with CPython's re on every pattern of the tree. Focused in-domain streams run on the real "
+            "drivers under the oracle (a sample also through the model): outputs longer than the search depth whose lines END in prompt-like words, in length "
+            "families that put the search-depth point at every offset of a line (the property's 'complete or partial line' is read as 'line or line PREFIX as "
+            "received', which is what Coq's quiet states through the window: a line SUFFIX is never a prompt candidate, so such outputs are inside the domain); "
+            "multi-event send_interactive dialogues in which the text of an expected response re-appears while another event is awaited, with and without "
+            "interaction_complete_patterns and with devices that ask fewer questions than the caller lists events (the device must receive exactly the lines it "
+            "asked for, every answer is typed only after its question was read, the next command returns its own output); two-line Junos prompts.",
     "note": "Proved on the model; the tie of the model to the code is the correspondence run (sampled). Section hypotheses of the general theorem (each discharged "
             "for the concrete engine by prompt_okb): M1 white space alone is never read as a prompt; M2 the prompt on the last line is found whatever complete "
             "lines precede it; M3 get_prompt's whole-buffer search matches nothing before the complete prompt and then matches the prompt. Side conditions of the "
             "property as formalised: commands free of BS/LF/CR/ESC; outputs free of CR/ESC and 'quiet' (exact windowed reading of 'no complete or partial line can "
             "be read as a prompt', which also covers a >window line whose tail reads as a prompt); prompt = one line ending in a non-blank plus blanks, no proper "
             "prefix of it a prompt; send_interactive: expected responses are literals that end each question, hidden <-> not echoed, no completion patterns; "
-            "send_commands with eager=False. Strict input mode only; ANSI stripping, rough mode and chunk-independence of decorated streams are C02's (the model "
+            "send_commands with eager=False. NOT covered by the theorems, covered by the executable model (correspondence) and the oracle only: "
+            "interaction_complete_patterns (modelled in Channel.v interaction_complete / interact_events; oracle domain: no armed pattern is found before the "
+            "end of an event's text, an early return to the prompt is 'complete' and not 'expected') and prompts of two lines (C01_history assumes a one-line "
+            "prompt; the model and the oracle take the prompt as given). Oracle-only: the per-write observation (nothing but a question's trailing blank is "
+            "unread when its answer is typed) - the model's observation record has no per-write field. Strict input mode only; ANSI stripping, rough mode and chunk-independence of decorated streams are C02's (the model "
             "carries the escape-sequence carry-over of read() in both shapes of the tree, exercised model-vs-implementation only). failed flags are C13's. "
             "Partial: exactness of raw_result / 'nothing unread' only up to the trailing blank of a prompt and the trailing white space of a command (two known, "
             "benign findings). Trusted: Coq kernel + vm_compute, gen/gen_channel.py + gen/regex.py, the framing device and scripted transports, CPython re "
